@@ -108,7 +108,7 @@ def run(run_, ctx):
         if sf == c02.SELF_TY and ((f.impl_trait == c02.SER_TRAIT and f.name in CELLS_SER) or f.impl_trait == "serde_core::ser::SerializeTuple"):
             c02.check_method(sub, F, helpers, f)
         if (c03.is_deser_self(sf) and f.impl_trait == c03.DE_TRAIT and f.name in CELLS_DE) or \
-                (sf.startswith("de::deserializer::SeqAccess<") and f.impl_trait == "serde_core::de::SeqAccess" and f.name in CELLS_DE):
+                (c03.is_access_impl(f, ("SeqAccess",)) and f.name in CELLS_DE):
             c03.check_method(sub, F, helpers, f)
     run_.floor("U", 7)
     run_groups(run_, ctx, [
